@@ -880,7 +880,6 @@ def gen_hist_case(rng, sets):
 
 def run_hist(case):
     """performs the calls of one history in order; returns the per-step observations"""
-    import gc
     from enspara.geometry import rotamer
     obj, mode = case['obj'], case['mode']
 
@@ -894,8 +893,7 @@ def run_hist(case):
         if mode == 'inplace' and B is not None and len(B) == len(st['hb']):
             B[:] = st['hb']                                   # edit the SAME object in place
         else:
-            B = None
-            gc.collect()
+            B = None                                          # refcount frees it: the next object may reuse its id
             B = make(st['hb'])                                # a fresh object (its id may be a recycled one)
         b = num(Fraction(*st['b']))
         ang = [float(Fraction(*a)) for a in st['angles']]
@@ -1016,7 +1014,7 @@ def check_hist(ctx, case, obs, resp):
 
 
 def hist_scope(ctx, sets):
-    cases = [gen_hist_case(ctx.rng, sets) for _ in range(ctx.n(250, 2500))]
+    cases = [gen_hist_case(ctx.rng, sets) for _ in range(ctx.n(250, 1500))]
     # the reported scenario, literally: phi's list edited in place into psi's, same buffer, then back
     for obj in ('list', 'ndarray-int64'):
         for b in (0, 15):
